@@ -378,6 +378,48 @@ pub fn cell_set(rng: &mut Rng, flavour: &str) -> Vec<MCell> {
                 out.push(WORLD);
             }
         }
+        "lookalike" => {
+            // same-resolution cells equally spaced in id space by the stride of ANOTHER level (every 4th / 16th cell, the
+            // same position in consecutive quintants or faces): they look like a sibling group to a stride-based check
+            // that uses the wrong stride, but are not one. Optionally padded with unrelated cells.
+            let res = 2 + rng.below(10) as i32;
+            let c = random_cell(rng, res);
+            let w = encode(MCell::new(res, c.face, c.q, c.s & !3));
+            let other = match rng.below(3) {
+                0 => 58,                                               // top-6-bit stride: same position, next quintant
+                1 => marker_bit((res - 1 - rng.below(2) as i32).max(2)) + 1, // a coarser Hilbert level
+                _ => marker_bit((res + 1).min(MAX_RES)) + 1,           // a finer level (not a cell stride at this resolution)
+            };
+            let n = *rng.pick(&[4u64, 4, 5, 12]);
+            for j in 0..n {
+                if let Some(x) = w.checked_add(j << other) {
+                    if let Some(k) = decode(x) {
+                        if k.res == res {
+                            out.push(k);
+                        }
+                    }
+                }
+            }
+            if rng.chance(0.5) {
+                let prog: Vec<MCell> = out.clone();
+                let mut extra = Vec::new();
+                let root = random_root(rng);
+                antichain(rng, root, 2, 0.8, 0.2, &mut extra);
+                // keep the whole set non-overlapping: drop extras that overlap a cell of the progression
+                for e in extra {
+                    let clash = prog.iter().any(|p| {
+                        let r = e.res.max(p.res).max(1);
+                        let (a, b) = (leaf_interval(e, r), leaf_interval(*p, r));
+                        a.0 < b.1 && b.0 < a.1
+                    });
+                    if !clash {
+                        out.push(e);
+                    }
+                }
+            }
+            out.sort();
+            out.dedup();
+        }
         "overlap" => {
             // ancestor + descendant mixes and duplicates
             let mut base = cell_set(rng, "antichain");
@@ -550,7 +592,7 @@ mod tests {
                 assert!(lon.is_finite() && lat.abs() <= 90.0, "{c} {lon} {lat}");
             }
         }
-        for f in ["antichain", "complete", "multiroot", "lowres"] {
+        for f in ["antichain", "complete", "multiroot", "lowres", "lookalike"] {
             for _ in 0..50 {
                 let s = cell_set(&mut rng, f);
                 assert!(!s.is_empty());
